@@ -17,7 +17,7 @@ def _files(w):
 
 def _arm(w, fault):
     """Arm one disk fault for the next dd call. Returns a disarm closure."""
-    if not fault:
+    if not fault or w.real_dir is not None:
         return lambda: False
     kind = fault['kind']
     if kind == 'stale':
@@ -75,7 +75,7 @@ def op_dump(w, ins):
     fault = ins.get('fault')
     if fault and fault['kind'] in ('stale', 'shelf') and fmt != 'json':
         fault = None
-    on_disk_before = w.fs.files.get(fname)
+    on_disk_before = w.get_file(fname)
     done = _arm(w, fault)
     if ins.get('filetype') and fmt == 'json':
         ok, v = call(w, g.api.dump, fname, arg, 'json')
@@ -92,9 +92,9 @@ def op_dump(w, ins):
             w.fail('exception:' + v[0], f'dump {fmt} without any disk fault raised {v[0]}: {v[1]}', owner_tags(w, 'C12'))
         w.cur_info['expected_raise'] = True
         # a torn file may be left behind; it may fail to load, never load wrong
-        if w.fs.files.get(fname) == on_disk_before:
+        if w.get_file(fname) == on_disk_before:
             pass        # the disk was not touched: the old file, if any, stands
-        elif fname in w.fs.files and items is not None:
+        elif w.get_file(fname) is not None and items is not None:
             files[fname] = dict(fmt=fmt, cont=cont, items=items, ok=False, order=order, nodes=None)
         else:
             files.pop(fname, None)
@@ -125,6 +125,8 @@ def op_load(w, ins):
     names = sorted(files)
     if not names:
         return 'skip'
+    if ins.get('only'):
+        names = [n for n in names if n.startswith(ins['only'] + '.')] or names
     fname = names[ins['file'] % len(names)]
     rec = files[fname]
     fmt = rec['fmt']
@@ -338,7 +340,7 @@ def op_dddmp(w, ins):
         return 'skip'
     text, meta = write_dddmp(w, m, roots, ins['style'])
     fname = f'd{w.step_no}.dddmp'
-    w.fs.files[fname] = text.encode('utf8')
+    w.put_file(fname, text.encode('utf8'))
     D = seams.DD
     ok, nb = call(w, D.dddmp.load, fname)
     expect_ok(w, ok, nb, 'C16', f'dddmp.load (varinfo {meta["mode"]}, orderedvarnames {meta["ordered"]}, gaps {meta["gaps"]})')
